@@ -62,6 +62,13 @@ def _guard_lvs(b, bb, eb, syms):
                 a = syms.atomize(lv)
                 (some if g[0] == "some" else none).append(a[1])
                 continue
+            # an enumerate().take().skip() loop: its index is the range variable
+            from ..loops import enumerate_as_range
+            lv2 = enumerate_as_range(("field", lv, "0"))
+            if loop_var_parts(lv2) is not None:
+                a = syms.atomize(lv2)
+                (some if g[0] == "some" else none).append(a[1])
+                continue
         other.append(g)
     return some, none, other
 
